@@ -316,4 +316,51 @@ Section Removal.
   Qed.
 End Removal.
 
-(* END-PART-4 *)
+(* ---- the user action de-duplicates repeated row ids (last occurrence wins) --------------------------------- *)
+Lemma select_In : forall A (k : list bool) (l : list A) x, In x (select k l) -> In x l.
+Proof.
+  intros A k. induction k as [|f k IH]; intros l x H; [destruct l; destruct H|].
+  destruct l as [|y l]; [destruct H|]. cbn [select] in H. destruct f.
+  - destruct H as [->|H]; [left; reflexivity|right; apply IH; assumption].
+  - right. apply IH. assumption.
+Qed.
+
+Lemma keep_last_nodup : forall rows, NoDup (select (keep_last rows) rows).
+Proof.
+  induction rows as [|r t IH]; cbn [keep_last select]; [constructor|].
+  destruct (memN r t) eqn:E; cbn [negb]; [exact IH|].
+  constructor; [|exact IH]. intros Hin. apply select_In in Hin. apply memN_In in Hin. congruence.
+Qed.
+
+Lemma select_length : forall A B (k : list bool) (l : list A) (l' : list B),
+  length l = length l' -> length (select k l) = length (select k l').
+Proof.
+  intros A B k. induction k as [|f k IH]; intros l l' H; [destruct l, l'; reflexivity|].
+  destruct l as [|x l], l' as [|y l']; cbn in H; try discriminate; [reflexivity|].
+  cbn [select]. destruct f; cbn [length]; rewrite (IH l l') by lia; reflexivity.
+Qed.
+
+Section UserSteps.
+  Variable hack : list Z -> option (list Z).
+
+  Theorem user_update_a_sym : forall s rows vals s',
+    pair_ok s -> sym s -> length vals = length rows ->
+    user_update_a hack get_reverse_adjustments_ref s rows vals = Ok s' -> pair_ok s' /\ sym s'.
+  Proof.
+    intros s rows vals s' Hok Hsym Hlen H. unfold user_update_a in H.
+    destruct (update_a_sym hack s _ _ s' Hok Hsym (keep_last_nodup rows)
+                (select_length _ _ (keep_last rows) vals rows Hlen) H) as [H1 [H2 _]].
+    split; assumption.
+  Qed.
+
+  Theorem user_update_b_sym : forall s rows vals s',
+    pair_ok s -> sym s -> length vals = length rows ->
+    user_update_b hack get_reverse_adjustments_ref s rows vals = Ok s' -> pair_ok s' /\ sym s'.
+  Proof.
+    intros s rows vals s' Hok Hsym Hlen H. unfold user_update_b in H.
+    exact (update_b_sym hack s _ _ s' Hok Hsym (keep_last_nodup rows)
+             (select_length _ _ (keep_last rows) vals rows Hlen) H).
+  Qed.
+End UserSteps.
+
+(* END-PART-5 *)
